@@ -175,3 +175,28 @@ Lemma resolved_tree_facts_lemma : forall src d p,
   front src = Front d -> ids (fd_ast d) = Some p ->
   erase_ids p = fd_ast d /\ lexical p = true /\ StaticRules.check p = fd_viol d /\ idx_targets p = true.
 Proof. intros src d p Fd I. destruct (resolved_facts_of src d p Fd I). auto. Qed.
+
+(* ================================================================== the fuel is a bound, not an input *)
+Require Import NS.proofs.LangFuel.
+
+Theorem run_source_impl_fuel_mono : forall eps n m src o e,
+  (n <= m)%nat -> run_source_impl eps n src = Ran o e -> e <> EFuel -> run_source_impl eps m src = Ran o e.
+Proof.
+  intros eps n m src o e Le H Ne. unfold run_source_impl in *.
+  destruct (front src) as [d|f]; cbn [impl_of_front] in *; [|discriminate H].
+  destruct (rejecting_phase d); [discriminate H|]. destruct (ids (fd_ast d)) as [p|]; [|discriminate H].
+  destruct (run_impl None eps n p) as [o' e'] eqn:R. inversion H; subst.
+  rewrite (run_impl_fuel_mono None eps n m p o e Le R Ne). reflexivity.
+Qed.
+
+(* acceptance, the rejecting phase and the diagnostics do not depend on eps or fuel *)
+Theorem rejection_independent_of_fuel : forall eps1 n1 eps2 n2 src ph r,
+  run_source eps1 n1 src = Rejected ph r ->
+  run_source eps2 n2 src = Rejected ph r /\ run_source_impl eps2 n2 src = Rejected ph r.
+Proof.
+  intros eps1 n1 eps2 n2 src ph r H. unfold run_source, run_source_impl in *.
+  destruct (front src) as [d|f]; cbn [spec_of_front impl_of_front] in *; [|discriminate H].
+  destruct (rejecting_phase d) as [ph0|].
+  - inversion H; subst. split; reflexivity.
+  - destruct (run_spec eps1 n1 (fd_ast d)). discriminate H.
+Qed.
